@@ -56,6 +56,8 @@ func checkIntComparator(c *Ctx, e *absExec, id string, fn *ssa.Function, li, ri 
 
 func runC16(c *Ctx) {
 	runC16ScratchReset(c)
+	runC16SortSubjects(c)
+	borrow(c, "O6", "C08", "O5", "AllocatedNotPreemptible", "the non-preemptible quota gate must be monotone within a cycle: a deallocation that subtracts what the allocation never added lowers the queue's non-preemptible usage, so an earlier (higher-priority) workload is refused and an identical later one admitted")
 	p, fx := c.P, c.Fx
 	e := newAbsExec(p)
 	const pkgFw = "pkg/scheduler/framework"
@@ -509,4 +511,98 @@ func condString(v ssa.Value) string {
 	}
 	rec(v, 0)
 	return sb.String()
+}
+
+// C16-O7 (PROV): a comparison function handed to sort.Slice compares elements of the slice that is being sorted.
+// The scheduler orders pod sets, sub-group sets, nodes, queues and tasks with sort.Slice(x, func(i, j) …); the
+// closure indexes a captured slice with i and j. If that is another slice than x — typically the input that x is a
+// copy of — the order produced depends on how the elements happen to be arranged, which for pod sets comes from a map
+// iteration: two identical workloads are then placed in different sub-group orders and the earlier one can fail where
+// the later one fits.
+func runC16SortSubjects(c *Ctx) {
+	p := c.P
+	src := func(v ssa.Value) ssa.Value {
+		for d := 0; d < 4; d++ {
+			switch x := v.(type) {
+			case *ssa.MakeInterface:
+				v = x.X
+			case *ssa.ChangeType:
+				v = x.X
+			case *ssa.UnOp:
+				if x.Op == token.MUL {
+					if a, ok := x.X.(*ssa.Alloc); ok {
+						return a
+					}
+				}
+				return v
+			default:
+				return v
+			}
+		}
+		return v
+	}
+	n := 0
+	for _, fn := range p.FuncsIn("pkg/scheduler") {
+		if isTestdataOrMock(fn) {
+			continue
+		}
+		for _, in := range instrsIn(fn, func(in ssa.Instruction) bool {
+			cc, ok := in.(*ssa.Call)
+			if !ok || calleeOf(cc) == nil || funcPkgPath(calleeOf(cc)) != "sort" {
+				return false
+			}
+			return calleeOf(cc).Name() == "Slice" || calleeOf(cc).Name() == "SliceStable"
+		}) {
+			call := in.(*ssa.Call)
+			mc, ok := call.Call.Args[1].(*ssa.MakeClosure)
+			if !ok {
+				continue
+			}
+			subject := src(call.Call.Args[0])
+			less := mc.Fn.(*ssa.Function)
+			n++
+			var foreign []string
+			for _, b := range less.Blocks {
+				for _, li := range b.Instrs {
+					ia, ok := li.(*ssa.IndexAddr)
+					if !ok {
+						continue
+					}
+					// indexed with one of the comparison's own indices?
+					byIJ := false
+					for _, prm := range less.Params {
+						if ia.Index == ssa.Value(prm) {
+							byIJ = true
+						}
+					}
+					if !byIJ {
+						continue
+					}
+					// which captured value is indexed
+					var captured ssa.Value
+					base := ia.X
+					if u, isU := base.(*ssa.UnOp); isU && u.Op == token.MUL {
+						base = u.X
+					}
+					for k, fv := range less.FreeVars {
+						if base == ssa.Value(fv) && k < len(mc.Bindings) {
+							captured = src(mc.Bindings[k])
+							if a, isA := mc.Bindings[k].(*ssa.Alloc); isA {
+								captured = a
+							}
+						}
+					}
+					if captured == nil {
+						continue
+					}
+					if captured != subject {
+						foreign = append(foreign, p.Pos(ia.Pos()))
+					}
+				}
+			}
+			c.Check(len(foreign) == 0, "O7", "PROV", funcKey(fn)+": the less function of sort.Slice indexes the slice being sorted", instrPos(in), "same slice",
+				"the comparison handed to sort.Slice indexes a different slice than the one being sorted ("+strings.Join(foreign, ", ")+"): the resulting order depends on the arrangement of the input (for pod sets: a map iteration), so identical workloads are placed in different orders")
+		}
+	}
+	c.Floor("O7", "PROV sort.Slice calls in the scheduler", n, 5)
 }
